@@ -89,7 +89,7 @@ theorem divLoop_terminates (v : Array K) (hv : v.size ≥ 1) (h00 : ((0 : K) == 
         rw [if_neg hg]
 
 /-- **Termination of `polydiv`, any scalar type.** If the divisor is non-empty and not the zero
-    polynomial, `deg u − deg v < 1000` (sharp: `x^1000 / 1` is reported as an error), `0 == 0`, and
+    polynomial, `deg u − deg v < 1000` (sharp: a DENSE dividend of 1001 coefficients, e.g. all ones, over the constant divisor 1 is reported as an error; `x^1000 / 1` itself is not, its remainder vanishes after one step), `0 == 0`, and
     dividing by the leading coefficient of the divisor does not panic, then `polydiv` returns a quotient and a remainder
     — never "exceeded maximum iterations", never a panic — and the remainder is zero or shorter
     than the divisor. No algebraic law is used: this holds for floats whose leading terms do not
